@@ -53,7 +53,9 @@ def run_clients(tape, prop, tier):
     ncalls = 2 + tape.draw(25)
     starts = [tape.choice([0.0, 0.0, 0.0, 0.1, 1.0, float(period) * 3]) for _ in range(ncalls)]
     which = [tape.draw(4) for _ in range(ncalls)]
-    res.sample = dict(kind="clients", tokens_per_period=str(tpp), period=period, initial=initial, calls=ncalls,
+    # the peer answers some requests with an error (the n-th request it receives gets replies[n])
+    replies = [tape.choice([200, 200, 200, 400, 500, 502, 503, 504]) for _ in range(ncalls)]
+    res.sample = dict(kind="clients", replies=replies[:12], tokens_per_period=str(tpp), period=period, initial=initial, calls=ncalls,
                       start_delays=starts[:10])
     cap = max(F(tpp), F(initial))
     rate = F(tpp) / period
@@ -68,8 +70,17 @@ def run_clients(tape, prop, tier):
         from basana.external.bitstamp import client as scli
         from ..net import SimNet, SimConnector
 
+        seen = [0]
+
         async def handler(request):
             await request.read()
+            st = replies[seen[0] % len(replies)]
+            seen[0] += 1
+            if st != 200:
+                res.faults[f"error_reply_{st}"] += 1
+                if st >= 502:
+                    return web.Response(status=st, text="<html>gateway error</html>", content_type="text/html")
+                return web.json_response({"code": -1003, "msg": "simulated", "status": "error", "reason": "simulated"}, status=st)
             return web.json_response({"ok": True, "bids": [], "asks": [], "lastUpdateId": 1})
         server = web.Server(handler)
         net = SimNet(loop, random.Random(1), {"binance.sim": server, "bitstamp.sim": server}, min_latency=0.0, jitter=0.0)
@@ -115,8 +126,11 @@ def run_clients(tape, prop, tier):
     s = sorted(first)
     res.stats["client_requests"] += len(s)
     res.probes["client_requests_on_wire"] += 1 if s else 0
-    if len(s) != ncalls:
+    if len(s) < ncalls:
         res.viol(PROP, "request-missing", "a throttled client call sent no request", f"{len(s)} requests on the wire for {ncalls} calls")
+    if len(s) > len(waits):
+        res.viol(PROP, "request-without-token", "a client sent a request without taking a token",
+                 f"{len(s)} requests on the wire, consume() was called {len(waits)} times ({ncalls} calls; replies {replies[:len(s)]})")
     n = len(s)
     for i in range(n):
         bad = False
